@@ -32,6 +32,9 @@ func mBufElem(typ string) VMatch {
 }
 
 func runC12(p *Prog, r *Report) {
+	if want("C12.13") {
+		ruleWriteBlockErrorStops(p, r, "C12.13")
+	}
 	if want("C12.12") {
 		ruleOptGetters(p, r, "C12.12", "journal strictness", "Options.GetStrict")
 	}
